@@ -8,7 +8,7 @@
 //!   B+<hex,hex,..>  B-<hex,..>   BigNum::from_vec(limbs little-endian) (+ minus())
 //!   I<dec> isize    U<dec> usize    S<text> string ('~' stands for a space)
 //! BigNum ops (operands popped right-to-left):
-//!   badd bsub bmul bdiv brem bgcd bneg beq bcmp  baddas bsubas bmulas bdivas bremas  bminus
+//!   badd bsub bmul bdiv brem bgcd bneg beq bcmp blt ble bgt bge bne  baddas bsubas bmulas bdivas bremas  bminus
 //!   bnew(I) bispos biszero btoint btostr:<base> bfromstr:<base>(S) bfromstring(S) bclone
 //! Num ops:
 //!   nfrombig(B B) nnew(I U) nfromnum(I) nzero none nnan nadd nmul nneg nminus nflip naddas nmulas
@@ -306,6 +306,11 @@ impl Vm {
             "bminus" => self.mut_b1(|a| a.minus()),
             "beq" => self.pure_b2(|a, b| V::Bool(a == b)),
             "bcmp" => self.pure_b2(|a, b| V::Ord(a.partial_cmp(b))),
+            "blt" => self.pure_b2(|a, b| V::Bool(a < b)),
+            "ble" => self.pure_b2(|a, b| V::Bool(a <= b)),
+            "bgt" => self.pure_b2(|a, b| V::Bool(a > b)),
+            "bge" => self.pure_b2(|a, b| V::Bool(a >= b)),
+            "bne" => self.pure_b2(|a, b| V::Bool(a != b)),
             "baddas" => self.mut_b2(|a, b| *a += b),
             "bsubas" => self.mut_b2(|a, b| *a -= b),
             "bmulas" => self.mut_b2(|a, b| *a *= b),
@@ -365,6 +370,11 @@ impl Vm {
             "ntostr" => self.pure_n1(|a| V::S(a.to_string())),
             "neq" => self.pure_n2(|a, b| V::Bool(a == b)),
             "ncmp" => self.pure_n2(|a, b| V::Ord(a.partial_cmp(b))),
+            "nlt" => self.pure_n2(|a, b| V::Bool(a < b)),
+            "nle" => self.pure_n2(|a, b| V::Bool(a <= b)),
+            "ngt" => self.pure_n2(|a, b| V::Bool(a > b)),
+            "nge" => self.pure_n2(|a, b| V::Bool(a >= b)),
+            "nne" => self.pure_n2(|a, b| V::Bool(a != b)),
             "nclone" => self.pure_n1(|a| {
                 let mut c = Num::zero();
                 c.set_copy(a);
